@@ -266,6 +266,9 @@ pub struct Scenario {
     pub tracing: bool,
     #[serde(default)]
     pub threads: Vec<Vec<usize>>,
+    /// per-thread operation lists (when empty, `threads` gives plain match plans)
+    #[serde(default)]
+    pub thread_ops: Vec<Vec<Op>>,
     #[serde(default)]
     pub schedule: Option<Vec<u8>>,
     #[serde(default)]
@@ -297,6 +300,7 @@ impl Scenario {
             + 8 * self.hash_seeds.len()
             + 16 * self.faults.len()
             + 8 * self.threads.iter().map(|t| 4 + t.len()).sum::<usize>()
+            + 8 * self.thread_ops.iter().map(|t| 4 + t.len()).sum::<usize>()
             + self.schedule.as_ref().map(|s| s.len()).unwrap_or(0)
             + 8 * self.ops.len()
             + 16 * self.storage.len()
